@@ -11,6 +11,7 @@ from engine.util import own_nodes, calls_with_nodes, where
 RULES = {
     "R-20.1": "every site in btreezone.WritableVersion that obtains a fresh node re-derives or copies every NodeFlags member",
     "R-20.2": "the DELEGATION flag, the delegation index and the GLUE flags of the subtree change together (add/discard paired with the flag and update_glue_flag)",
+    "R-20.4": "bounds(): both bounds skip occluded (glue) names, and no `x[-n:]` slice is taken with an n that may be 0 (it would yield the whole name instead of the empty one: the apex of a relativized zone)",
     "R-20.3": "map and index are B-tree containers (canonical order by construction); keys are validated; helper predicates have the documented shape",
 }
 WV = "dns.btreezone.WritableVersion"
@@ -201,6 +202,58 @@ def run(model, rep, tier):
         for c in ast.walk(f.node):
             if isinstance(c, ast.Call) and dotted(c.func) == "sorted":
                 rep.bad("R-20.3", f.qualname, where(f, c), "sorted() in the B-tree version: order must come from the tree", stmt="sorted")
+    # ------------------------------------------------------------ R-20.4
+    n_neg = 0
+    for f in sorted(model.all_functions(), key=lambda g: g.qualname):
+        negs = [x for x in ast.walk(f.node) if isinstance(x, ast.Subscript) and isinstance(x.slice, ast.Slice) and x.slice.upper is None and isinstance(x.slice.lower, ast.UnaryOp)
+                and isinstance(x.slice.lower.op, ast.USub) and not isinstance(x.slice.lower.operand, ast.Constant)]
+        if not negs:
+            continue
+        cfg = CFG(f.node, implicit_exc=False)
+        for x in negs:
+            n_neg += 1
+            e = src(x.slice.lower.operand)
+            node = next((n for n in cfg.stmts() if any(y is x for y in own_nodes(n.ast))), None)
+            okk = False
+            if node is not None:
+                for t_ in cfg.nodes:
+                    if t_.kind != "test":
+                        continue
+                    nc = normalise_compare(t_.ast.test)
+                    if nc[0] != "atom":
+                        continue
+                    a = nc[1]
+                    if a[0] != e:
+                        continue
+                    if (a[1], a[2]) in (("==", "0"), ("falsy", ""), ("<=", "0"), ("<", "1")) and cfg.edge_dominated(node.id, {(t_.id, "f")}):
+                        okk = True
+                    if (a[1], a[2]) in ((">", "0"), ("truthy", ""), (">=", "1"), ("!=", "0")) and cfg.edge_dominated(node.id, {(t_.id, "t")}):
+                        okk = True
+            rep.check(okk, "R-20.4", f.qualname, where(f, x), f"`{src(x)[:50]}` is reached only with `{e}` != 0",
+                      f"`{src(x)[:60]}`: when `{e[:40]}` is 0 the slice `[-0:]` is the WHOLE sequence, not the empty one (in a relativized zone a name whose closest encloser is the apex gets itself as closest encloser)",
+                      stmt="neg-slice " + src(x)[:40])
+    rep.floor("R-20.4-negslices", n_neg, 1)
+    bf = model.func("dns.btreezone.ImmutableVersion.bounds")
+    ret = [c for c in ast.walk(bf.node) if isinstance(c, ast.Call) and src(c.func) == "Bounds"]
+    if len(ret) != 1 or len(ret[0].args) < 3:
+        rep.blind("R-20.4", bf.qualname, where(bf, bf.node), "Bounds(...) construction not recognised", stmt="bounds-shape")
+    else:
+        for idx, side in ((1, "left"), (2, "right")):
+            arg = ret[0].args[idx]
+            roots = {n.id for n in ast.walk(arg) if isinstance(n, ast.Name)}
+            # follow one level of local definitions (right_key = right.key())
+            for a in ast.walk(bf.node):
+                if isinstance(a, ast.Assign) and any(isinstance(t_, ast.Name) and t_.id in roots for t_ in a.targets):
+                    roots |= {n.id for n in ast.walk(a.value) if isinstance(n, ast.Name)}
+            loops = [w for w in ast.walk(bf.node) if isinstance(w, ast.While)]
+            skipped = False
+            for w in loops:
+                tests = [src(x) for x in ast.walk(w) if isinstance(x, ast.Call) and isinstance(x.func, ast.Attribute) and x.func.attr == "is_glue"]
+                reass = {t_.id for a in ast.walk(w) if isinstance(a, ast.Assign) for t_ in a.targets if isinstance(t_, ast.Name)}
+                if any(any(t.startswith(r + ".") for r in roots) for t in tests) and reass & roots:
+                    skipped = True
+            rep.check(skipped, "R-20.4", bf.qualname, where(bf, arg), f"the {side} bound is moved past glue names in a loop",
+                      f"the {side} bound (`{src(arg)}`) is never tested with is_glue(): an occluded name beneath a zone cut can be returned as a bound", stmt=f"skip-glue {side}")
     # the index and the map start from the same base: both copy-on-write from the previous version, or (replacement) both empty
     wi = wv.methods["__init__"]
     cfg = CFG(wi.node, implicit_exc=False)
@@ -252,6 +305,14 @@ def _blocks(fn):
 
 
 WITNESSES = [
+    {"id": "c20-closest-encloser-negative-zero-slice", "rule": "R-20.4", "file": "dns/btreezone.py", "expect": "fires",
+     "old": "        _, closest_encloser = name.split(\n            max(left_comparison[2], right_comparison[2])\n        )\n",
+     "new": "        common = max(left_comparison[2], right_comparison[2])\n        closest_encloser = dns.name.Name(name[-common:])\n"},
+    {"id": "c20-twin-closest-encloser-guarded-slice", "rule": "R-20.4", "file": "dns/btreezone.py", "expect": "silent",
+     "old": "        _, closest_encloser = name.split(\n            max(left_comparison[2], right_comparison[2])\n        )\n",
+     "new": "        common = max(left_comparison[2], right_comparison[2])\n        if common > 0:\n            closest_encloser = dns.name.Name(name[-common:])\n        else:\n            closest_encloser = dns.name.empty\n"},
+    {"id": "c20-left-bound-glue", "rule": "R-20.4", "file": "dns/btreezone.py", "expect": "fires",
+     "old": "        while left.value().is_glue():\n            # occluded names are not bounds; back up to their delegation point\n            left = c.prev()\n            assert left is not None\n", "new": ""},
     {"id": "c20-replacement-keeps-old-index", "rule": "R-20.2", "file": "dns/btreezone.py", "expect": "fires",
      "old": "            self.delegations = Delegations(original=version.delegations)  # type: ignore\n        else:\n            self.delegations = Delegations()\n",
      "new": "        else:\n            version = zone._versions[-1]\n        self.delegations = Delegations(original=version.delegations)  # type: ignore\n"},
